@@ -17,7 +17,7 @@ CodeTab ==
  @@ (":" :> 58) @@ (";" :> 59) @@ ("<" :> 60) @@ ("=" :> 61) @@ (">" :> 62) @@ ("?" :> 63) @@ ("@" :> 64)
  @@ ("A" :> 65) @@ ("B" :> 66) @@ ("Z" :> 90) @@ ("[" :> 91) @@ ("\\" :> 92) @@ ("]" :> 93) @@ ("^" :> 94)
  @@ ("_" :> 95) @@ ("`" :> 96) @@ ("a" :> 97) @@ ("b" :> 98) @@ ("c" :> 99) @@ ("d" :> 100) @@ ("z" :> 122)
- @@ ("{" :> 123) @@ ("|" :> 124) @@ ("}" :> 125) @@ ("~" :> 126) @@ ("U1" :> 233) @@ ("U2" :> 12354)
+ @@ ("{" :> 123) @@ ("|" :> 124) @@ ("}" :> 125) @@ ("~" :> 126) @@ ("U1" :> 233) @@ ("U2" :> 12354) @@ ("UFFFD" :> 65533)
 
 Code(c) == CodeTab[c]
 Symbols == DOMAIN CodeTab
